@@ -44,8 +44,9 @@ type ServerScenario struct {
 	CloseAt  int64 // tick at which another thread calls Close (-1: none)
 	Handler  int   // 0 immediate, 1 sleeps one tick then re-reads its message, 2 mutates its message then sleeps,
 	// 3 blocks until the serve loop has consumed the whole script (outlives every later read)
-	Bound int
-	Log   bool // the server is configured with its debug logger (output discarded)
+	Bound   int
+	Log     bool // the server is configured with its debug logger (output discarded)
+	LogKind int  // with Log: 0 debug logger, 1 summary logger, 2 a caller-supplied logger that renders every message
 }
 
 func (s *ServerScenario) String() string {
@@ -55,7 +56,7 @@ func (s *ServerScenario) String() string {
 	}
 	lg := ""
 	if s.Log {
-		lg = " debug-logger"
+		lg = " " + [...]string{"debug-logger", "summary-logger", "custom-logger"}[s.LogKind]
 	}
 	return fmt.Sprintf("%s %s dgs=[%s] spaced=%v readerr@%d close@%d handler=%d%s", s.Name, fam46(s.V6), strings.Join(ks, ","), s.Spaced, s.EndErrAt, s.CloseAt, s.Handler, lg)
 }
@@ -272,7 +273,7 @@ func (s *ServerScenario) body(out **srvRun) func() {
 				record(serialOf4(m), peer, func() []byte { return m.ToBytes() }, func() {
 					m.UpdateOption(dhcpv4.OptGeneric(dhcpv4.GenericOptionCode(225), []byte{0xee, byte(serialOf4(m))}))
 				})
-			}, srvOpts4(conn, s.Log)...)
+			}, srvOpts4(conn, s.Log, s.LogKind)...)
 			if err != nil {
 				panic(err)
 			}
@@ -282,7 +283,7 @@ func (s *ServerScenario) body(out **srvRun) func() {
 				record(serialOf6(d), peer, func() []byte { return d.ToBytes() }, func() {
 					d.AddOption(&dhcpv6.OptionGeneric{OptionCode: 65003, OptionData: []byte{0xee, byte(serialOf6(d))}})
 				})
-			}, srvOpts6(conn, s.Log)...)
+			}, srvOpts6(conn, s.Log, s.LogKind)...)
 			if err != nil {
 				panic(err)
 			}
@@ -434,19 +435,31 @@ func (s *ServerScenario) check(run *srvRun, ex *vs.Exec) (string, string) {
 	return "", strings.Join(outc, ",")
 }
 
-func srvOpts4(conn net.PacketConn, lg bool) []server4.ServerOpt {
+func srvOpts4(conn net.PacketConn, lg bool, kind int) []server4.ServerOpt {
 	o := []server4.ServerOpt{server4.WithConn(conn)}
 	if lg {
 		inner := server4.WithDebugLogger()
+		if kind == 1 {
+			inner = server4.WithSummaryLogger()
+		}
+		if kind == 2 {
+			inner = server4.WithLogger(readLogger4{})
+		}
 		o = append(o, func(s *server4.Server) { quiet(func() { inner(s) }) })
 	}
 	return o
 }
 
-func srvOpts6(conn net.PacketConn, lg bool) []server6.ServerOpt {
+func srvOpts6(conn net.PacketConn, lg bool, kind int) []server6.ServerOpt {
 	o := []server6.ServerOpt{server6.WithConn(conn)}
 	if lg {
 		inner := server6.WithDebugLogger()
+		if kind == 1 {
+			inner = server6.WithSummaryLogger()
+		}
+		if kind == 2 {
+			inner = server6.WithLogger(readLogger6{})
+		}
 		o = append(o, func(s *server6.Server) { quiet(func() { inner(s) }) })
 	}
 	return o
@@ -554,7 +567,9 @@ func c14Scenarios(tier string) []Scenario {
 			}
 			// the debug logger prints every message it handles: logging must not disturb dispatch
 			if n >= 1 && n <= 2 {
-				add(&ServerScenario{V6: v6, Dgs: seq, EndErrAt: n, CloseAt: -1, Handler: 1, Bound: 1, Log: true}, "logging")
+				for lk := 0; lk < 3; lk++ {
+					add(&ServerScenario{V6: v6, Dgs: seq, EndErrAt: n, CloseAt: -1, Handler: 1, Bound: 1, Log: true, LogKind: lk}, "logging")
+				}
 			}
 			// nothing ends the server: it must keep serving
 			if n > 0 && n <= 2 {
